@@ -1,26 +1,27 @@
 #!/bin/bash
 # usage: tools/confirm_seed.sh C03 1    -- confirm /tmp/seed/out_C03/patch1.diff in the scratch worktree, keep it under /verif/seeded
-id=$1; n=$2; wt=/tmp/seed/$id; out=/tmp/seed/out_$id
+id=$1; n=$2; base=${SEEDBASE:-/tmp/seed}; off=${SEEDOFF:-0}; wt=$base/$id; out=$base/out_$id
 [ -f $out/patch$n.diff ] || { echo "no patch"; exit 1; }
 cd $wt && git checkout -q -- . && git clean -fdq
 export PYTHONPATH=$wt PYTHONDONTWRITEBYTECODE=1
-/venv/bin/python -W ignore $out/demo$n.py >/tmp/seed/_d0.log 2>&1; d0=$?
+/venv/bin/python -W ignore $out/demo$n.py >$base/_d0.log 2>&1; d0=$?
 git apply $out/patch$n.diff || { echo "$id/$n: patch does not apply"; exit 1; }
-/venv/bin/python -m pytest -q -p no:cacheprovider --timeout=900 --junitxml=/tmp/seed/_j.xml >/tmp/seed/_t.log 2>&1
-tests=$(python3 - <<'PY'
+/venv/bin/python -m pytest -q -p no:cacheprovider --timeout=900 --junitxml=$base/_j.xml >$base/_t.log 2>&1
+tests=$(JX=$base/_j.xml python3 - <<'PY'
 import json,xml.etree.ElementTree as ET
 b=json.load(open('/root/.vp/BASELINE.json'))
 ok=set()
-for tc in ET.parse('/tmp/seed/_j.xml').iter('testcase'):
+import os
+for tc in ET.parse(os.environ['JX']).iter('testcase'):
     if not any(c.tag in('failure','error','skipped') for c in tc): ok.add(tc.get('classname')+'::'+tc.get('name'))
 print(len([x for x in b['stable_pass'] if x in ok]))
 PY
 )
-/venv/bin/python -W ignore $out/demo$n.py >/tmp/seed/_d1.log 2>&1; d1=$?
+/venv/bin/python -W ignore $out/demo$n.py >$base/_d1.log 2>&1; d1=$?
 git checkout -q -- . ; git clean -fdq
 echo "$id/$n demo_pristine=$d0 tests_pass=$tests/70 demo_patched=$d1"
 if [ $d0 -eq 0 ] && [ "$tests" = "70" ] && [ $d1 -ne 0 ]; then
-  dst=/verif/seeded/$id-$n; mkdir -p $dst
+  dst=/verif/seeded/$id-$((n+off)); mkdir -p $dst
   cp $out/patch$n.diff $dst/patch.diff; cp $out/demo$n.py $dst/demo.py
   python3 - "$id" "$n" "$dst" "$out" <<'PY'
 import sys,json,re
